@@ -58,6 +58,51 @@ func (r *prng) intn(n int) int {
 
 // instances are the private reader/writer objects of one task; they are
 // created lazily and re-used by later operations of the same task.
+// sharedParents are bitmaps built once, before the tasks start (see the
+// "parentcrop" operation); parentCells lists where their symbols are.
+var sharedParents []*gozxing.BinaryBitmap
+
+type parentCell struct {
+	kind       string
+	x, y, w, h int
+}
+
+var parentCells [][]parentCell
+
+func buildParents() {
+	for i := 0; i < 2; i++ {
+		canvas, _ := gozxing.NewBitMatrix(640, 430)
+		var cells []parentCell
+		place := func(kind string, m *gozxing.BitMatrix, err error, x0, y0 int) {
+			if err != nil || m == nil {
+				return
+			}
+			for y := 0; y < m.GetHeight(); y++ {
+				for x := 0; x < m.GetWidth(); x++ {
+					if m.Get(x, y) {
+						canvas.Set(x0+x, y0+y)
+					}
+				}
+			}
+			cells = append(cells, parentCell{kind, x0, y0, m.GetWidth(), m.GetHeight()})
+		}
+		m, err := qrcode.NewQRCodeWriter().Encode(fmt.Sprintf("PARENT %d: quadrant with a QR symbol", i), gozxing.BarcodeFormat_QR_CODE, 150, 150, nil)
+		place("qr", m, err, 20, 20)
+		m, err = datamatrix.NewDataMatrixWriter().Encode(fmt.Sprintf("Parent %d Data Matrix", i), gozxing.BarcodeFormat_DATA_MATRIX, 120, 120, nil)
+		place("dm", m, err, 340, 30)
+		m, err = oned.NewEAN13Writer().Encode(fmt.Sprintf("59012341234%d", i), gozxing.BarcodeFormat_EAN_13, 230, 80, nil)
+		place("ean13", m, err, 20, 230)
+		m, err = oned.NewCode128Writer().Encode(fmt.Sprintf("Parent128-%d", i), gozxing.BarcodeFormat_CODE_128, 280, 80, nil)
+		place("code128", m, err, 320, 300)
+		bmp, err := gozxing.NewBinaryBitmapFromImage(canvas)
+		if err != nil || len(cells) == 0 {
+			continue
+		}
+		sharedParents = append(sharedParents, bmp)
+		parentCells = append(parentCells, cells)
+	}
+}
+
 type instances struct {
 	qrw     *qrcode.QRCodeWriter
 	qrr     gozxing.Reader
@@ -415,6 +460,82 @@ func runOp(in *instances, op OpSpec) (d string) {
 			out += " | " + digestResult(x, nil)
 		}
 		return out
+	case "parentcrop":
+		// Two pictures (sharedParents) are decoded into bitmaps once, before any
+		// task starts; every task cuts its own region out of one of them (and
+		// sometimes turns it) and reads that with its own reader. The tasks
+		// only derive from the shared parent, they never ask it for rows or a
+		// matrix: what a derived bitmap shares with its parent and its siblings
+		// inside the library must be read-only.
+		if len(sharedParents) == 0 {
+			return "no parents"
+		}
+		pi := op.P % len(sharedParents)
+		parent := sharedParents[pi]
+		cell := parentCells[pi][r.intn(len(parentCells[pi]))]
+		l, t := cell.x-r.intn(12), cell.y-r.intn(12)
+		w, h := cell.w+12+r.intn(12), cell.h+12+r.intn(12)
+		if l < 0 {
+			l = 0
+		}
+		if t < 0 {
+			t = 0
+		}
+		if l+w > parent.GetWidth() {
+			w = parent.GetWidth() - l
+		}
+		if t+h > parent.GetHeight() {
+			h = parent.GetHeight() - t
+		}
+		bmp, err := parent.Crop(l, t, w, h)
+		if err != nil {
+			return "C " + err.Error()
+		}
+		out := cell.kind
+		if r.intn(4) == 0 {
+			if rb, e := bmp.RotateCounterClockwise(); e == nil {
+				bmp = rb
+				out += " rot"
+			}
+		}
+		// rows of the derived bitmap (what the 1-D readers consume)
+		for i := 0; i < 3; i++ {
+			y := r.intn(bmp.GetHeight())
+			row, e := bmp.GetBlackRow(y, nil)
+			if e != nil {
+				out += fmt.Sprintf(" row%d:ERR", y)
+			} else {
+				hsum := sha256.Sum256([]byte(row.String()))
+				out += fmt.Sprintf(" row%d:%x", y, hsum[:6])
+			}
+		}
+		var rd gozxing.Reader
+		switch cell.kind {
+		case "qr":
+			if in.qrr == nil {
+				in.qrw = qrcode.NewQRCodeWriter()
+				in.qrr = qrcode.NewQRCodeReader()
+			}
+			rd = in.qrr
+		case "dm":
+			if in.dmr == nil {
+				in.dmw = datamatrix.NewDataMatrixWriter()
+				in.dmr = datamatrix.NewDataMatrixReader()
+			}
+			rd = in.dmr
+		case "ean13":
+			if in.multi == nil {
+				in.multi = oned.NewMultiFormatUPCEANReader(nil)
+			}
+			rd = in.multi
+		default:
+			if in.r1d["code128"] == nil {
+				in.w1d["code128"], in.r1d["code128"] = oned.NewCode128Writer(), oned.NewCode128Reader()
+			}
+			rd = in.r1d["code128"]
+		}
+		res, err := rd.Decode(bmp, readerHints(r, nil))
+		return out + " | " + digestResult(res, err)
 	case "aztec":
 		if len(aztecFiles) == 0 {
 			return "no aztec files"
